@@ -400,6 +400,9 @@ class SimulatorBackend(LocalBackend):
         _time_start = self._time_keeper.time()
         time_start = _time_start + self.simulator_config.delay_start
         self._simulator_state.push(StartEvent(trial_id=trial_id), event_time=time_start)
+        # The worker is occupied from now on (not only once the start event is
+        # processed, ``delay_start`` later)
+        self._busy_trial_ids.add(trial_id)
         self._debug_message(
             "StartEvent", time=time_start, trial_id=trial_id, pushed=True
         )
